@@ -68,7 +68,10 @@ AscSeq(S, n) == LET f[i \in 0..n] == IF i = 0 THEN <<>>
                 IN f[n]
 Mu(p, i) == RMul(p.sp[i], p.s)
 NSp(p) == Len(p.sp)
-MuMax(p) == LET f[i \in 0..NSp(p)] == IF i = 0 THEN RZero ELSE RMax(f[i-1], RAbs(Mu(p, i))) IN f[NSp(p)]
+RECURSIVE MuMaxFrom(_, _, _)
+MuMaxFrom(p, i, acc) == IF i > NSp(p) THEN acc
+                        ELSE LET x == RAbs(Mu(p, i)) IN MuMaxFrom(p, i + 1, TLCEval(IF RLe(acc, x) THEN x ELSE acc))
+MuMax(p) == MuMaxFrom(p, 1, RZero)
 
 (* |nu| of the sigma = 1 Cayley transform, nu = (mu+1)/(mu-1), compared by cross-multiplication *)
 NuLe(p, a, b, f) ==   \* |nu_a| <= f * |nu_b|
@@ -162,12 +165,17 @@ SpectrumKnown(s) == Len(s.rrows) = NSp(s.p)
    Ties / near ties are admitted up to the relative slack 2^-SelBits (exactly, when SelBits = 0). *)
 AscMu(p, ret) == LET eps == RMul(Slack, MuMax(p))
                  IN \A j \in 1..(Len(ret)-1) : RLe(Mu(p, ret[j]), RAdd(Mu(p, ret[j+1]), eps))
-WorstNu(p, ids) == LET f[j \in 1..Len(ids)] == IF j = 1 THEN ids[1]
-                                               ELSE IF NuLt(p, f[j-1], ids[j]) THEN ids[j] ELSE f[j-1]
-                   IN f[Len(ids)]
-BestNu(p, ids) == LET f[j \in 1..Len(ids)] == IF j = 1 THEN ids[1]
-                                              ELSE IF NuLt(p, ids[j], f[j-1]) THEN ids[j] ELSE f[j-1]
-                  IN f[Len(ids)]
+(* linear folds (accumulator is evaluated before the recursive call: no re-evaluation, see harness/README.md) *)
+RECURSIVE WorstNuFrom(_, _, _, _)
+WorstNuFrom(p, ids, j, acc) == IF j > Len(ids) THEN acc
+                               ELSE LET nxt == IF NuLt(p, acc, ids[j]) THEN ids[j] ELSE acc
+                                    IN WorstNuFrom(p, ids, j + 1, TLCEval(nxt))
+WorstNu(p, ids) == WorstNuFrom(p, ids, 2, ids[1])
+RECURSIVE BestNuFrom(_, _, _, _)
+BestNuFrom(p, ids, j, acc) == IF j > Len(ids) THEN acc
+                              ELSE LET nxt == IF NuLt(p, ids[j], acc) THEN ids[j] ELSE acc
+                                   IN BestNuFrom(p, ids, j + 1, TLCEval(nxt))
+BestNu(p, ids) == BestNuFrom(p, ids, 2, ids[1])
 SolverOK(s, ret) ==
     LET p == s.p
         m == NSp(p)
